@@ -759,3 +759,27 @@ func opSeed(op fsOp) int {
 	}
 	return h
 }
+
+// markBadLow marks clusters 3..n as bad (0x0FFFFFF7) in both on-disk FAT copies of a FAT32 volume and re-opens it.
+func (s *fatSys) markBadLow(n int) error {
+	bs := s.dev.Peek(s.cfg.Start, 512)
+	bps := int64(binary.LittleEndian.Uint16(bs[11:13]))
+	rsv := int64(binary.LittleEndian.Uint16(bs[14:16]))
+	fatsz := int64(binary.LittleEndian.Uint32(bs[36:40]))
+	buf := make([]byte, 4*(n-2))
+	for i := 0; i < n-2; i++ {
+		binary.LittleEndian.PutUint32(buf[4*i:], 0x0FFFFFF7)
+	}
+	if int64(4*(n+1)) > fatsz*bps {
+		return fmt.Errorf("FAT too small to mark %d clusters", n)
+	}
+	for k := int64(0); k < 2; k++ {
+		s.dev.Poke(buf, s.cfg.Start+rsv*bps+k*fatsz*bps+12)
+	}
+	fs, err := fatRead(s.cfg, s.dev, false)
+	if err != nil {
+		return err
+	}
+	s.fs = fs
+	return nil
+}
